@@ -120,6 +120,7 @@ pub fn scenario(seed: u64, stepping: Option<Stepping>) -> Made {
         }
         any
     };
+    let mut last_stop = 0u64;
     for _ in 0..n_ops {
         t += match rng.below(5) {
             0 => 0,
@@ -143,6 +144,7 @@ pub fn scenario(seed: u64, stepping: Option<Stepping>) -> Made {
             2 => {
                 let name = rng.pick(&variants).clone();
                 w.stop_resolve_hostname(h, &name);
+                last_stop = w.now();
                 desc.push_str(&format!(" @{t}:stop({name})"));
             }
             3..=6 => {
@@ -184,9 +186,25 @@ pub fn scenario(seed: u64, stepping: Option<Stepping>) -> Made {
                 if rng.chance(1, 4) {
                     m.additionals.push(wire::a(&wire::name(other), 120, [10, 0, 0, 99]));
                 }
+                // the way a host says it when it comes up: inside the announcement of a service of some type nobody browses
+                // (PTR, SRV and TXT first, then its addresses)
+                // (only while a search for the name is open: otherwise a packet whose PTR answers are all for types nobody
+                // browses is somebody else's business and the daemon rightly keeps none of it)
+                let now = w.now();
+                // (a new search for the name replaces the one before: the latest one decides)
+                let search_open = searches.iter().max_by_key(|(_, _, ts, _)| *ts).is_some_and(|(_, _, ts, to)| *ts > last_stop && *ts < now && to.is_none_or(|to| ts + to > now + 5));
+                let in_service_announcement = search_open && rng.chance(1, 2);
+                if in_service_announcement {
+                    let sty = wire::name("_elsewhere._tcp.local");
+                    let sinst = wire::name("thing._elsewhere._tcp.local");
+                    let target = wire::name(&owner);
+                    let mut pre = vec![wire::ptr(&sty, 4500, &sinst), wire::srv(&sinst, 120, 9, &target), wire::txt(&sinst, 4500, vec![0])];
+                    pre.append(&mut m.answers);
+                    m.answers = pre;
+                }
                 let src = if ifi == 3 { sock4([192, 168, 1, 60], 5353) } else { scen::peer4(60) };
                 w.inject_msg(h, ifi, src, &m);
-                desc.push_str(&format!(" @{t}:addr({owner},ttl{ttl},if{ifi})"));
+                desc.push_str(&format!(" @{t}:addr({owner},ttl{ttl},if{ifi}{})", if in_service_announcement { ",in-service-announcement" } else { "" }));
             }
             7 => {
                 // goodbye for one address
